@@ -109,6 +109,17 @@ def concretise(shape, rng, tier):
         lo, hi = pat(dt, 1, rng.randint(1, mn - 1)), pat(dt, 0, rng.randint(1, mn - 1))
     elif b == "equal":
         lo = hi = pat(dt, rng.random() < 0.5, rand_normal(rng, dt))
+    elif b == "equal_sub":
+        lo = hi = pat(dt, rng.random() < 0.5, rng.randint(1, mn - 1))
+    elif b == "equal_zero":
+        lo, hi = pat(dt, rng.random() < 0.5, 0), pat(dt, rng.random() < 0.5, 0)
+    elif b == "adjacent_sub":
+        m = rng.choice([0, 1, mn - 2, mn - 1, rng.randint(1, mn - 2)])
+        lo, hi = (pat(dt, 0, m), pat(dt, 0, m + 1)) if rng.random() < 0.5 else (pat(dt, 1, m + 1), pat(dt, 1, m))
+    elif b == "minonly_sub":
+        lo = pat(dt, rng.random() < 0.5, rng.randint(1, mn - 1))
+    elif b == "maxonly_sub":
+        hi = pat(dt, rng.random() < 0.5, rng.randint(1, mn - 1))
     elif b == "adjacent":
         m = rand_normal(rng, dt)
         lo, hi = (pat(dt, 0, m), pat(dt, 0, m + 1)) if rng.random() < 0.5 else (pat(dt, 1, m + 1), pat(dt, 1, m))
@@ -133,8 +144,10 @@ def concretise(shape, rng, tier):
             size = 2 * mn + span + 100 if dt == "float16" else 1999
         elif b in ("straddle", "straddle_lopsided"):
             size = 1900 + rng.randint(0, 99)
-        elif b in ("equal", "adjacent"):
+        elif b in ("equal", "adjacent", "equal_sub", "equal_zero", "adjacent_sub"):
             size = 6 + rng.randint(0, 3)
+        elif b in ("minonly_sub", "maxonly_sub"):
+            size = 1999
         else:
             size = span + 1 + rng.randint(0, 50)
         size = max(size, 6)
